@@ -96,18 +96,23 @@ def run(v):
     dpath = os.path.join(WORK, f"C13-{v.tier}-defs.ndjson")
     D.write_ndjson(dpath, fam)
     trace = os.path.join(WORK, f"C13-{v.tier}-wrap.ndjson")
-    r = subprocess.run([hbin, "wrap", "--defs", dpath, "--out", trace, "--widths", ",".join(map(str, widths))],
-                       text=True, capture_output=True, timeout=7200)
+    tw = [w for w in (50, 97) if w in widths] or widths[len(widths) // 2:][:1]
+    r = subprocess.run([hbin, "wrap", "--defs", dpath, "--out", trace, "--widths", ",".join(map(str, widths)),
+                        "--text-widths", ",".join(map(str, tw))], text=True, capture_output=True, timeout=7200)
     if r.returncode != 0:
         raise ToolError("harness wrap failed: " + r.stderr[-2000:])
     recs = []
     slim = trace + ".slim"
     nw = ns = 0
+    with_text = []
     with open(slim, "w") as w:
         for x in read_ndjson(trace):
             if "panic" in x:
                 v.report({"rule": "render_panic", "width_ge_40": x["width"] >= 40}, x)
                 continue
+            if "text" in x:
+                with_text.append({k: x[k] for k in ("def", "doc", "width", "text")})
+                del x["text"]
             if x["kind"] == "short":
                 if not x["doc"].startswith("help"):
                     continue
@@ -134,7 +139,35 @@ def run(v):
                       "lines": [ln for ln in x.get("lines", []) if ln["len"] > x["width"] + 2][:5], "short": x.get("short", [])[:50]})
     if not t["ok"]:
         raise ToolError("Wrap validation did not complete:\n" + t["tail"])
-    cov = {"evaluations": nw + ns, "distinct_nontrivial": nw, "definitions": len(fam), "widths": len(widths),
+    # the width may also come from OptionParser::max_width: a real process built with `.max_width(w)` and asked for
+    # the full help (`--help --help`) prints exactly the rendering of the same document at Display width w
+    app = build_harness(bin_name="harness-app")
+    dmap = {x["id"]: x for x in fam}
+    rnd2 = random.Random(SEED + 7)
+    rnd2.shuffle(with_text)
+    nproc = 0
+    for x in with_text[: (40 if q else 400)]:
+        dd = dmap[x["def"]]
+        path = [p for p in x["doc"][len("help:"):].split("/") if p]
+        lvl = dd
+        for pth in path:
+            lvl = [c for c in lvl["tail"]["cmds"] if c["names"][0] == pth][0]["level"]
+        hn = [n for n in lvl["help_names"] if n.startswith("--")] or lvl["help_names"]
+        argv = path + [hn[0], hn[0]]
+        env = dict(os.environ, BPAF_VERIF_DEF=json.dumps(dd), BPAF_VERIF_WIDTH=str(x["width"]))
+        try:
+            pr = subprocess.run(["app"] + argv, executable=app, env=env, capture_output=True, timeout=30)   # argv[0] = "app"
+        except subprocess.TimeoutExpired:
+            v.report({"rule": "max_width_process_hangs"}, {"def": dd, "argv": argv, "width": x["width"]})
+            continue
+        nproc += 1
+        got = pr.stdout.decode("utf-8", "replace")
+        exp = x["text"]
+        if pr.returncode != 0 or got.rstrip("\n") != exp.rstrip("\n"):
+            v.report({"rule": "max_width_differs_from_display_width", "status": pr.returncode},
+                     {"def": dd, "argv": argv, "width": x["width"], "display": exp[:3000], "process": got[:3000],
+                      "stderr": pr.stderr.decode("utf-8", "replace")[:500]})
+    cov = {"max_width_process_runs": nproc, "evaluations": nw + ns, "distinct_nontrivial": nw, "definitions": len(fam), "widths": len(widths),
            "renderings_validated": nw, "short_forms_validated": ns, "design_states": d["distinct"],
            "samples": [{"def": x["def"], "doc": x["doc"], "width": x["width"], "lines": len(x["lines"])} for x in recs[3:6]],
            "rule": "help of every command level and three error documents of generated definitions whose texts come from a grammar "
